@@ -58,7 +58,15 @@ var optNames = []string{"default", "ignore-inconsistency", "ignore-missing-child
 // judged is the one after the second pass.
 const reannotate = 100
 
+// option sets >= reannotateByTime: as reannotate, but between the two calls the
+// caller re-orders every parent's update list with Updates.SortByTimestamp (a
+// public method; nothing that applies updates needs a particular order).
+const reannotateByTime = 200
+
 func optName(i int) string {
+	if i >= reannotateByTime {
+		return fmt.Sprintf("reannotate-after-sort-by-time-with-child-filter-mask=%b", i-reannotateByTime)
+	}
 	if i >= reannotate {
 		return fmt.Sprintf("reannotate-with-child-filter-mask=%b", i-reannotate)
 	}
@@ -68,6 +76,9 @@ func optName(i int) string {
 func optSet(i int) []annotate.Option {
 	if i >= reannotate {
 		mask := i - reannotate
+		if i >= reannotateByTime {
+			mask = i - reannotateByTime
+		}
 		return []annotate.Option{annotate.ChildFilter(func(fid osm.FeatureID) bool {
 			return mask>>uint(fid.Ref()-1)&1 == 1
 		})}
@@ -115,6 +126,8 @@ type call struct {
 	// lastOnly: the call is handed the newest parent version only (the result
 	// judged is still the whole list)
 	lastOnly bool
+	// byTime: before the call every parent's update list is sorted by time
+	byTime bool
 }
 
 // plan is the sequence of calls made on one input; the LAST call is judged.
@@ -131,7 +144,7 @@ func optPlan(opt int) plan {
 	if opt >= reannotate {
 		p.calls = append(p.calls, call{opts: func() []annotate.Option { return nil }})
 	}
-	p.calls = append(p.calls, call{opts: func() []annotate.Option { return optSet(opt) }})
+	p.calls = append(p.calls, call{opts: func() []annotate.Option { return optSet(opt) }, byTime: opt >= reannotateByTime})
 	return p
 }
 
@@ -202,6 +215,14 @@ func run(in input, p plan) result {
 	for ci, c := range p.calls {
 		if a, ok := ds.(interface{ advance() }); ok && c.advance {
 			a.advance()
+		}
+		if c.byTime {
+			for _, w := range ways {
+				w.Updates.SortByTimestamp()
+			}
+			for _, rl := range rels {
+				rl.Updates.SortByTimestamp()
+			}
 		}
 		ctx := context.Background()
 		if c.cancelled {
@@ -664,6 +685,10 @@ func main() {
 				name := fmt.Sprintf("reannotate list=%v later=%v", sh.list, sh.later)
 				add(scenario(name, fmt.Sprintf("reannotate/%d-children", len(sh.later)), len(sh.later), stability(sh.list, sh.later, same), reannotate+mask))
 				nre++
+				if mask%3 == 1 {
+					add(scenario(name, fmt.Sprintf("reannotate/%d-children", len(sh.later)), len(sh.later), stability(sh.list, sh.later, same), reannotateByTime+mask))
+					nre++
+				}
 			}
 		}
 		for c := 2; c <= 3; c++ {
